@@ -40,6 +40,7 @@ var kindNames = []string{"Open", "Add", "AddMulti", "Abandon", "CompactAll", "Ex
 
 type POp struct {
 	Kind int           `json:"k"`
+	Bad  int           `json:"bad,omitempty"` // KAdd only: 1 = also writes an invalid ref name, 2 = limits start at 1 (too low)
 	Txs  []HTx         `json:"txs,omitempty"`
 	Exp  *model.Expiry `json:"exp,omitempty"`
 }
@@ -135,6 +136,10 @@ type Result struct {
 	YieldsPerProc []int
 	Trace         []verifvfs.Event
 	Violation     error
+	ViewAtKill    *Store // committed state (decoded from disk) at the moment of the first kill
+	FinalView     *Store
+	InitialView   *Store
+	KilledAfterOwnRename bool
 }
 
 type engine struct {
@@ -498,6 +503,10 @@ func (e *engine) onOpEnd(ev verifvfs.Event, op *opRecord) {
 	if e.mon.M10 && op.read.valid {
 		e.checkRead(what, p, op)
 	}
+	if e.mon.M16 && op.op.Kind == KClean && op.err != nil && !lockFailure(op.err) {
+		e.fail(annotate(Failf("C16/clean-failed", "%s failed with %q (only a leftover lock or a stale handle may make it fail, with ErrLockFailure)", what, op.err), e.tail(16)))
+		return
+	}
 	if e.mon.M16 {
 		for path, creator := range e.created {
 			if creator == p {
@@ -632,7 +641,13 @@ func (e *engine) runOp(p int, stp **reftable.Stack, prog Prog, rec *opRecord) {
 		tx := rec.op.Txs[0]
 		rec.err = st.Add(func(w *reftable.Writer) error {
 			min := st.NextUpdateIndex() + uint64(tx.Gap)
+			if rec.op.Bad == 2 {
+				min = 1
+			}
 			refs, logs, max := tx.Resolve(min, NewStore(), e.c.Cfg)
+			if rec.op.Bad == 1 {
+				refs = gen.SortRefs(append(refs, gen.Ref{Name: "refs/heads//bad", Idx: min, Kind: gen.KSym, Target: "HEAD"}))
+			}
 			if len(refs)+len(logs) > 0 {
 				rec.tables = []model.Table{{Min: min, Max: max, Refs: refs, Logs: NormLogs(logs, e.c.Cfg)}}
 			}
@@ -879,6 +894,7 @@ func Exec(c Case, mon Monitors) (res *Result) {
 		return
 	}
 	e.versions = []version{{names: names, view: v0, step: -1, proc: -1}}
+	res.InitialView = v0
 	e.everCommitted = len(names) > 0 || fileExists(filepath.Join(e.dir, "tables.list"))
 
 	e.sched = verifvfs.NewSched()
@@ -934,6 +950,9 @@ func Exec(c Case, mon Monitors) (res *Result) {
 		e.sched.Step(p, kill)
 		if kill {
 			res.Killed++
+			if res.ViewAtKill == nil {
+				res.ViewAtKill = e.versions[len(e.versions)-1].view
+			}
 			// was it killed between a table rename and the end of its operation?
 			if op := e.cur[p.ID]; op != nil {
 				for _, ev := range e.sched.Trace[maxInt(0, len(e.sched.Trace)-40):] {
@@ -972,6 +991,7 @@ func Exec(c Case, mon Monitors) (res *Result) {
 	}
 	verifvfs.Install(nil)
 	res.Versions = len(e.versions)
+	res.FinalView = e.versions[len(e.versions)-1].view
 
 	// ---- global checks at quiescence
 	if mon.M5 || mon.M4 {
